@@ -6,6 +6,7 @@ CONSTANTS
  FixedOrder = TRUE
  Paths <- MCPaths
  MaxOps = 5
+ WithFF = FALSE
  HDev = "writerAppends"
 INVARIANT ReadIsCurrent
 CHECK_DEADLOCK FALSE
